@@ -408,3 +408,159 @@ def c09(tier):
            "explanation": "TLC evaluates Gates.tla (solved => no affirmative gate read by a non-exempt reader, no exceeded limit) on the trace summary of every explored run"}
     return rep, "exploration", cov, ["the gate catalogue (data/gates.json) is frozen and reviewed; it was drafted by forced execution (harness/derive_gates.py)",
                                      "HSA-above-limit scenarios are covered through the 8889 gates (age_under_55 / hsa_full_year) and C08's limit amounts"]
+
+
+# ---------------------------------------------------------------------------------------------
+# C02 line equations
+
+STATUS_INDEX = {"Single": 1, "MarriedFilingJointly": 2, "MarriedFilingSeparately": 3, "HeadOfHousehold": 4, "QualifyingWidowWidower": 5, "QualifyingSurvivingSpouse": 5}
+
+
+def c02(tier):
+    import linegen
+    import hand_lines
+    import random
+    rep = common.Reporter("C02", tier)
+    sd = common.seed()
+    eqs_by_year, stats = {}, {}
+    for year in scenarios.YEARS:
+        te, st = linegen.template_equations(year)
+        he = hand_lines.equations(year)
+        # a hand equation for a (form, line) replaces nothing: both are checked
+        eqs_by_year[year] = te + he
+        stats[str(year)] = {"from_templates": len(te), "hand_transcribed": len(he)}
+    scs = real_checks.explore(tier, sd, per_year=(40 if tier == "quick" else 500), replays=False, snap="none", nc_rate=0.4)
+    eqs, sols, inst, meta = [], [], [], []
+    eq_index = {}
+    skipped = 0
+    by_eq_hits = {}
+    lt_cache = {}
+    def build(sc, values, collect_absent):
+        """equation instances of one solution; returns the operand lines that are absent although their form takes part"""
+        nonlocal skipped
+        year = sc["year"]
+        S, R, fo, lo = numeric_solution(year, values)
+        if year not in lt_cache:
+            lt_cache[year] = line_types(year)
+        for name, text in values.items():
+            f, l = name.split(".", 1)
+            t = lt_cache[year].get((f.split(":")[0], l))
+            if t and t[0] == "BooleanField":
+                S[name] = 1 if text.strip().lower() == "true" else 0
+        st = STATUS_INDEX.get(values.get("1040.filing_status", ""), 0)
+        if st == 0:
+            return set()
+        absent = set()
+        pending = []
+        forms_present = set(n.split(".")[0] for n in values)
+        for e in eqs_by_year[year]:
+            instances = [f for f in forms_present if f.split(":")[0] == e["form"]]
+            for finst in instances:
+                full = lambda l: l if "." in l else "%s.%s" % (finst, l)
+                line = full(e["line"])
+                if line not in S:
+                    continue
+                op = e["op"]
+                args = [full(a) for a in e.get("args", [])]
+                if op == "addprefix":
+                    args = sorted(n for n in S if n.startswith("%s.%s" % (finst, e["prefix"])))
+                    op = "add"
+                    if not args:
+                        continue
+                src = e.get("src", "")
+                if op == "carry" and src not in S:
+                    sform = src.split(".")[0]
+                    if not any(f.split(":")[0] == sform for f in forms_present):
+                        if e["origin"] == "hand" or e.get("cond"):
+                            continue            # conditional on the other form being used
+                        op = "carry0"           # the source form takes no part: nothing to carry
+                    else:
+                        absent.add(src)
+                        if not collect_absent:
+                            skipped += 1
+                        continue
+                need = [a for a in args if (a not in S and not (op == "mull" and a == args[-1]))]
+                if op == "mull" and args[-1] not in R:
+                    need.append(args[-1])
+                cond = e.get("cond", "")
+                if cond and cond not in S:
+                    need.append(cond)
+                if need:
+                    absent.update(need)
+                    if not collect_absent:
+                        skipped += 1
+                    continue
+                places = (lt_cache[year].get((finst.split(":")[0], e["line"])) or ("", 2))[1]
+                tol = 0
+                if places == 0:
+                    tol = 50 if op in ("carry", "mul", "mull", "min", "minconst", "same") else 0
+                key = json.dumps([year, e["form"], e["line"], op, e.get("origin"), cond, e.get("condis", 0)] + [a.split(".", 1)[1] for a in args])
+                rec = {"eid": 0, "op": "subx" if e.get("exact_sub") else op, "line": line, "args": args, "src": src, "floor": bool(e.get("floor")), "cap0": bool(e.get("cap0")),
+                       "num": e.get("num", 0), "den": e.get("den", 1), "k": e.get("k", 0), "tol": tol, "consts": e.get("consts", [0, 0, 0, 0, 0]),
+                       "cond": cond, "condis": e.get("condis", 0)}
+                pending.append((rec, e, finst, key))
+        if collect_absent and absent:
+            return absent
+        sols.append({"S": S, "R": R, "status": st})
+        si = len(sols)
+        for rec, e, finst, key in pending:
+            eqs.append(rec)
+            inst.append({"sol": si, "eq": len(eqs)})
+            meta.append((sc, e, finst))
+            by_eq_hits[key] = by_eq_hits.get(key, 0) + 1
+        return set()
+
+    forced = 0
+    wrong_source = []
+    for sc in scs:
+        r = sc["res"]
+        if r["abort"] or "values" not in r:
+            continue
+        absent = build(sc, r["values"], False)
+        # a carry whose source line was never computed although the target was: did the target take another line of that form?
+        reads = {}
+        for ev in sc["trace"]["events"]:
+            if ev["ev"] == "attempt" and ev["out"]["o"] == "val":
+                reads[ev["line"]] = set(n for (k3, n, _d) in ev["reads"] if k3 == "ln")
+        for e in eqs_by_year[sc["year"]]:
+            if e["op"] != "carry":
+                continue
+            src = e["src"]
+            tgt = "%s.%s" % (e["form"], e["line"])
+            if tgt in r["values"] and src not in r["values"]:
+                other = sorted(n for n in reads.get(tgt, ()) if n.split(".")[0] == src.split(".")[0] and n != src)
+                if other:
+                    wrong_source.append((sc, e, other))
+    work = common.mkwork()
+    try:
+        path = os.path.join(work, "lines.json")
+        json.dump({"eqs": eqs, "sols": sols, "inst": inst}, open(path, "w"))
+        cfgp = os.path.join(work, "l.cfg")
+        open(cfgp, "w").write("SPECIFICATION Spec\nCHECK_DEADLOCK FALSE\n")
+        res = common.run_tlc(os.path.join(common.SPEC, "Lines.tla"), cfgp, cwd=work, workers=1, env={"HV_LINES_FILE": path}, timeout=3400, heap="10g")
+    finally:
+        common.rmwork(work)
+    if res.rc != 0 or res.distinct != len(inst) + 1:
+        raise common.MachineryError("Lines.tla failed (rc=%s, %d states for %d instances)\n%s" % (res.rc, res.distinct, len(inst), res.error_excerpt(40)))
+    for m in re.finditer(r'^"C02\|(\d+)\|"$', res.out, re.M):
+        sc, e, finst = meta[int(m.group(1)) - 1]
+        rec = eqs[inst[int(m.group(1)) - 1]["eq"] - 1]
+        S = sols[inst[int(m.group(1)) - 1]["sol"] - 1]["S"]
+        vals = {rec["line"]: S.get(rec["line"])}
+        for a in rec["args"] + ([rec["src"]] if rec["src"] else []):
+            vals[a] = S.get(a)
+        rep.violation("line:%d:%s.%s:%s" % (sc["year"], e["form"], e["line"], e["op"]),
+                      "%s.%s is not what the instruction says (%s %s %s) -- \"%s\"; values (cents) %s in %s" % (finst, e["line"], e["op"], e.get("args", ""), e.get("src", ""), e.get("text", "")[:120], vals, sc["sid"]),
+                      {"kind": "scenario", "year": sc["year"], "request": sc["request"], "given": sc["given"], "equation": {k: v for k, v in e.items()}})
+    for sc, e, other in wrong_source:
+        rep.violation("line:%d:%s.%s:carry" % (sc["year"], e["form"], e["line"]),
+                      "%s.%s is carried from %s, the instruction names %s -- \"%s\" (%s)" % (e["form"], e["line"], other, e["src"], e.get("text", "")[:120], sc["sid"]),
+                      {"kind": "scenario", "year": sc["year"], "request": sc["request"], "given": sc["given"], "equation": dict(e)})
+    cov = {"evaluations": len(inst), "distinct_nontrivial": len(by_eq_hits),
+           "rule": "every equation (generated from the instruction text of the bundled IRS templates, or hand-transcribed with a citation) x every explored solution (complete or partial) that holds the line and its operands; "
+                   "distinct = distinct (year, form, line, rule) exercised at least once",
+           "samples": [{"equation": {k: v for k, v in meta[0][1].items()}, "scenario": meta[0][0]["sid"]}] if meta else [{"none": True}],
+           "equations": stats, "solutions": len(sols), "instances_skipped_operand_absent": skipped, "carries_from_another_line_of_the_source_form": len(wrong_source), "states": res.distinct,
+           "explanation": "TLC evaluates Lines.tla on every equation instance in integer cents"}
+    return rep, "exploration", cov, ["hand-transcribed worksheet and NC equations are as good as the transcription (citations in harness/hand_lines.py)",
+                                     "an equation is skipped on a solution that lacks one of its operand lines; amounts below $10M; percentages within 1 cent (whole-dollar lines within 50 cents)"]
